@@ -21,8 +21,11 @@ LoneDollarFrom(s, i) ==
 Diag(B, tpl) == IF B = "pg" /\ LoneDollarFrom(tpl, 1) THEN "lone_dollar" ELSE "general"
 HasDoubledMark(B, tpl) == \E i \in 1..(Len(tpl) - 1) : Ch(tpl, i) = MarkOf(B) /\ Ch(tpl, i + 1) = MarkOf(B)
 
+\* mode "values": cust_with_values(tpl, vals); mode "exprs": cust_with_expr(s)(tpl, value-free expressions), whose
+\* stand-alone renderings are recorded as lits — nothing is bound
+NV(r) == IF r.mode = "exprs" THEN r.nexprs ELSE Len(r.vals)
 KeysFor(B, r) ==
-  LET nv == Len(r.vals) IN
+  LET nv == NV(r) IN
   IF ~InDomain(B, r.tpl, r.al, nv) THEN {"?ood"}
   ELSE IF IsPanic(r.obs[B]) THEN {"C11/" \o B \o "/panic/" \o Diag(B, r.tpl)}
   ELSE
@@ -31,15 +34,15 @@ KeysFor(B, r) ==
         lits == r.lits[B].r
         order == ValOrder(ps)
     IN (IF o.inline = "SELECT " \o InlineOf(ps, lits) THEN {} ELSE {"C11/" \o B \o "/inline_expansion_differs/" \o Diag(B, r.tpl)})
-       \cup (IF o.sql = "SELECT " \o ParamOf(B, ps, 1) THEN {} ELSE {"C11/" \o B \o "/param_expansion_differs/" \o Diag(B, r.tpl)})
-       \cup (IF Len(o.values) = Len(order) /\ \A i \in DOMAIN order : o.values[i] = r.vals[order[i]]
+       \cup (IF o.sql = "SELECT " \o (IF r.mode = "exprs" THEN InlineOf(ps, lits) ELSE ParamOf(B, ps, 1)) THEN {} ELSE {"C11/" \o B \o "/param_expansion_differs/" \o Diag(B, r.tpl)})
+       \cup (IF (r.mode = "exprs" /\ o.values = <<>>) \/ (r.mode # "exprs" /\ Len(o.values) = Len(order) /\ \A i \in DOMAIN order : o.values[i] = r.vals[order[i]])
              THEN {} ELSE {"C11/" \o B \o "/bound_values_differ/" \o Diag(B, r.tpl)})
        \cup (IF HasDoubledMark(B, r.tpl) THEN {}
              ELSE IF IsPanic(o.inject) THEN {"C11/" \o B \o "/inject_panics/" \o Diag(B, r.tpl)}
              ELSE IF o.inject.r = o.inline THEN {} ELSE {"C11/" \o B \o "/inject_differs_from_inline/" \o Diag(B, r.tpl)})
 
 Exact(r) == \A B \in Backends :
-   IsPanic(r.obs[B]) \/ ~InDomain(B, r.tpl, r.al, Len(r.vals)) \/
+   IsPanic(r.obs[B]) \/ ~InDomain(B, r.tpl, r.al, NV(r)) \/
    (r.obs[B].r.inline = "SELECT " \o InlineOf(ExpandImpl(B, r.tpl, r.al), r.lits[B].r)
     /\ (IsPanic(r.obs[B].r.inject) \/ r.obs[B].r.inject.r = InlineOf(InjectImpl(B, r.obs[B].r.sql, r.obs[B].r.al_sql), [i \in DOMAIN r.obs[B].r.values |-> "?"]) \/ TRUE))
 
@@ -48,7 +51,7 @@ Verdict(r) ==
   [id |-> r.id, keys |-> {k \in ks : ~HasChar(k, "?") \/ SubSeq(k, 1, 1) # "?"} \ {"?ood"},
    ood |-> Cardinality({B \in Backends : KeysFor(B, r) = {"?ood"}}),
    exact |-> Exact(r),
-   nt |-> \E B \in Backends : InDomain(B, r.tpl, r.al, Len(r.vals)) /\ \E i \in DOMAIN ExpandAbs(B, r.tpl, r.al) : ExpandAbs(B, r.tpl, r.al)[i].k = "val"]
+   nt |-> \E B \in Backends : InDomain(B, r.tpl, r.al, NV(r)) /\ \E i \in DOMAIN ExpandAbs(B, r.tpl, r.al) : ExpandAbs(B, r.tpl, r.al)[i].k = "val"]
 Step == /\ l <= Len(Rec)
         /\ PrintT(<<"R", ToJson(Verdict(Rec[l]))>>)
         /\ l' = l + 1
